@@ -4,6 +4,7 @@
 package main
 
 import (
+	"context"
 	"crypto/ecdsa"
 	"crypto/elliptic"
 	"crypto/rand"
@@ -17,10 +18,15 @@ import (
 	"github.com/google/certificate-transparency-go/client/configpb"
 	"github.com/google/certificate-transparency-go/loglist3"
 	"github.com/google/certificate-transparency-go/trillian/ctfe"
+	ctfepb "github.com/google/certificate-transparency-go/trillian/ctfe/configpb"
 	"github.com/google/certificate-transparency-go/x509"
 	"github.com/google/certificate-transparency-go/x509/pkix"
 	"github.com/google/certificate-transparency-go/x509util"
+	"github.com/google/trillian"
 	"google.golang.org/protobuf/types/known/timestamppb"
+
+	"verif/harness/ctfeenv"
+	"verif/harness/pki"
 
 	"verif/harness/lib"
 )
@@ -149,6 +155,7 @@ func main() {
 	r := lib.Rand()
 	setupPKI()
 	w := lib.NewWriter(header, 400)
+	defer w.Guard()
 	n := lib.Count(600, 20000)
 
 	// sanity: an unwindowed validation of a generated chain succeeds
@@ -198,6 +205,57 @@ func main() {
 				Input:  map[string]interface{}{"kind": "point", "t": jt(&t), "lo": jt(lo), "hi": jt(hi)},
 				Impl:   map[string]interface{}{"ctfe_admits": ctfeOK, "client_routes": clientJ},
 				PropOK: propOK, Tags: []string{tag},
+			})
+		case i%6 == 4: // point, through the configuration: LogConfig -> ValidateLogConfig -> SetUpInstance -> add-chain
+			t := pickInstant(r)
+			lo, hi := pickBound(r, t), pickBound(r, t)
+			env, eerr := ctfeenv.New(ctfeenv.Options{Roots: []*pki.Entity{{Cert: rootCert, DER: rootDER, Key: rootKey}}, Dir: *lib.OutDir,
+				Configure: func(c *ctfepb.LogConfig) {
+					if lo != nil {
+						c.NotAfterStart = timestamppb.New(*lo)
+					}
+					if hi != nil {
+						c.NotAfterLimit = timestamppb.New(*hi)
+					}
+				}})
+			inverted := lo != nil && hi != nil && ns(*hi).Cmp(ns(*lo)) < 0 // config.go refuses limit before start (equal = empty window)
+			if eerr != nil {
+				w.Add(lib.Case{
+					Coq:    fmt.Sprintf("CConfigPoint %s %s None", lib.ZBig(ns(t)), iv(lo, hi)),
+					Key:    fmt.Sprintf("config-refused-%d", i),
+					Input:  map[string]interface{}{"kind": "config-point", "t": jt(&t), "lo": jt(lo), "hi": jt(hi)},
+					Impl:   map[string]interface{}{"config_error": eerr.Error()},
+					PropOK: inverted, Note: "a configuration with an ordered NotAfter window was refused: " + eerr.Error(), Tags: []string{"config:refused"},
+				})
+				continue
+			}
+			env.Backend.QueueLeafFn = func(_ context.Context, req *trillian.QueueLeafRequest) (*trillian.QueueLeafResponse, error) {
+				return &trillian.QueueLeafResponse{QueuedLeaf: &trillian.QueuedLogLeaf{Leaf: req.Leaf}}, nil
+			}
+			chain := [][]byte{leaf(t)}
+			if r.Intn(2) == 0 {
+				chain = append(chain, rootDER)
+			}
+			rec := env.AddChain(false, chain)
+			admitted := rec.Code == 200
+			tag := "config:outside"
+			if inside(t, lo, hi) {
+				tag = "config:inside"
+			}
+			if lo != nil && ns(*lo).Cmp(ns(t)) == 0 || hi != nil && ns(*hi).Cmp(ns(t)) == 0 {
+				tag += ":on-bound"
+			}
+			note := ""
+			ok := !inverted && admitted == inside(t, lo, hi) && (admitted || rec.Code == 400)
+			if !ok {
+				note = fmt.Sprintf("log configured with not_after_start=%v not_after_limit=%v answered %d to a certificate with NotAfter=%v (inside the window: %v)", jt(lo), jt(hi), rec.Code, t.UTC(), inside(t, lo, hi))
+			}
+			w.Add(lib.Case{
+				Coq:    fmt.Sprintf("CConfigPoint %s %s (Some %s)", lib.ZBig(ns(t)), iv(lo, hi), lib.Bool(admitted)),
+				Key:    fmt.Sprintf("config-point-%d", i),
+				Input:  map[string]interface{}{"kind": "config-point", "t": jt(&t), "lo": jt(lo), "hi": jt(hi)},
+				Impl:   map[string]interface{}{"status": rec.Code},
+				PropOK: ok, Note: note, Tags: []string{tag, fmt.Sprintf("config:bounds=%v/%v", lo != nil, hi != nil)},
 			})
 		case i%3 == 1: // log list
 			t := pickInstant(r)
